@@ -144,3 +144,21 @@ def every_node_skips_interfaces_deferred_until_a_later_cycle(e0: bool, e1: bool,
     assert trace == wanted("EveryNode", en, bf, rev, subset(dmask), (cycle, node)), "not excluded OR DEFERRED"
 
 
+
+
+@lemma(gen={"k": (0, 1), "cycle": (0, 3), "node": (0, 3)},
+       stubs={"armi.bookkeeping.report.reportingUtils:writeTightCouplingConvergenceSummary": "no_report"})
+def a_cap_of_zero_iterations_runs_none_and_still_writes_the_node(k: int, cycle: int, node: int):
+    """'all tight-coupling settings': tightCouplingMaxNumIters has no lower bound in the settings schema.  With a cap <= 0
+    the property text leaves exactly one behaviour - the cap is reached at once: no Coupled call, the node is written.
+    (contracts/C15_stack.py assumes cap >= 1.)  The code reads `converged` after a loop that never ran: UnboundLocalError
+    at the first time node.  The design round saw this (candidate F7) and dropped it as outside the statement.
+    Symbolically this lemma is UNDECIDED on the unrepaired tree (the engine reports a read of an unbound local as
+    Unsupported, not as UnboundLocalError); the native replay fails with the UnboundLocalError; with `converged = False`
+    before the loop it is discharged."""
+    cap = [0, -1][choose(k, 0, 1)]
+    pa = sym_list("bool", "pa", maxlen=3)
+    trace = []
+    o = coupled_operator(trace, (pa, None, None), (True, True, True), cap, [])
+    o._performTightCoupling(cycle, node)
+    assert trace == [("DBWRITE",)], "no iteration, the node is still written"
